@@ -473,38 +473,50 @@ fn main() {
         return;
     }
 
-    // ---- virtual time, single thread: deterministic, hang decisions on the logical clock
-    let mut rng = Rng::derive(a.seed, "C29", 0);
-    let mut ids = 0u64;
-    let rt = virtual_rt();
-    let n_virtual = a.pick(120_000, 3_000_000);
-    rt.block_on(async {
-        // fixed corner cases first
-        let fixed: Vec<Vec<Script>> = vec![
-            vec![],
-            vec![Script::Decline],
-            vec![Script::Decline, Script::Decline, Script::Decline],
-            vec![Script::Events { events: vec![], hang: false }],
-            vec![Script::Events { events: vec![(0, Ev::Err(900_001))], hang: false }, Script::Events { events: vec![(10, Ev::Err(900_002)), (0, Ev::Err(900_003))], hang: false }],
-            vec![Script::Events { events: vec![(5, Ev::Err(900_004))], hang: false }, Script::Events { events: vec![(5, Ev::Item(900_005))], hang: false }],
-            vec![Script::Events { events: vec![(0, Ev::Item(900_006))], hang: true }],
-            vec![Script::Events { events: vec![], hang: true }, Script::Events { events: vec![(1, Ev::Err(900_007))], hang: false }],
-        ];
-        for scripts in &fixed {
-            let o = run_scenario(scripts, false, Duration::from_secs(3600)).await;
-            check_one(&rep, scripts, &o, "virtual", true);
-        }
-        for _ in 0..n_virtual {
-            let scripts = random_scripts(&mut rng, &mut ids, true, false);
-            let o = run_scenario(&scripts, false, Duration::from_secs(3600)).await;
-            check_one(&rep, &scripts, &o, "virtual", true);
+    // ---- virtual time: each shard is a single-threaded runtime with a paused clock
+    // (deterministic; hang decisions on the logical clock); thorough tier runs 8 shards
+    let n_virtual: u64 = a.pick(120_000, 3_200_000);
+    let shards: u64 = a.pick(1, 8);
+    std::thread::scope(|scope| {
+        for shard in 0..shards {
+            let rep = &rep;
+            let seed = a.seed;
+            scope.spawn(move || {
+                let mut rng = Rng::derive(seed, "C29", shard);
+                let mut ids = shard * 1_000_000_000;
+                let rt = virtual_rt();
+                rt.block_on(async {
+                    if shard == 0 {
+                        // fixed corner cases first
+                        let fixed: Vec<Vec<Script>> = vec![
+                            vec![],
+                            vec![Script::Decline],
+                            vec![Script::Decline, Script::Decline, Script::Decline],
+                            vec![Script::Events { events: vec![], hang: false }],
+                            vec![Script::Events { events: vec![(0, Ev::Err(900_001))], hang: false }, Script::Events { events: vec![(10, Ev::Err(900_002)), (0, Ev::Err(900_003))], hang: false }],
+                            vec![Script::Events { events: vec![(5, Ev::Err(900_004))], hang: false }, Script::Events { events: vec![(5, Ev::Item(900_005))], hang: false }],
+                            vec![Script::Events { events: vec![(0, Ev::Item(900_006))], hang: true }],
+                            vec![Script::Events { events: vec![], hang: true }, Script::Events { events: vec![(1, Ev::Err(900_007))], hang: false }],
+                        ];
+                        for scripts in &fixed {
+                            let o = run_scenario(scripts, false, Duration::from_secs(3600)).await;
+                            check_one(rep, scripts, &o, "virtual", true);
+                        }
+                    }
+                    for _ in 0..n_virtual / shards {
+                        let scripts = random_scripts(&mut rng, &mut ids, true, false);
+                        let o = run_scenario(&scripts, false, Duration::from_secs(3600)).await;
+                        check_one(rep, &scripts, &o, "virtual", true);
+                    }
+                });
+            });
         }
     });
-    drop(rt);
+    let mut ids = 900_000_000_000u64;
 
     // ---- real worker threads: producers race each other and the consumer
     let rt = tokio::runtime::Builder::new_multi_thread().worker_threads(4).enable_time().build().unwrap();
-    let n_threads = a.pick(15_000, 600_000);
+    let n_threads = a.pick(15_000, 300_000);
     let mut rng = Rng::derive(a.seed, "C29-threads", 0);
     rt.block_on(async {
         for _ in 0..n_threads {
